@@ -5,6 +5,8 @@ import (
 
 	sdk "github.com/cosmos/cosmos-sdk/types"
 
+	"github.com/comdex-official/comdex/app/wasm/bindings"
+	assettypes "github.com/comdex-official/comdex/x/asset/types"
 	auctionsv2types "github.com/comdex-official/comdex/x/auctionsV2/types"
 	lendtypes "github.com/comdex-official/comdex/x/lend/types"
 	liquiditytypes "github.com/comdex-official/comdex/x/liquidity/types"
@@ -139,5 +141,41 @@ func BuildAspects(o *Chain) []Aspect {
 		m.Kind = &rewardstypes.MsgCreateGauge_LiquidityMetaData{LiquidityMetaData: &rewardstypes.LiquidtyGaugeMetaData{PoolId: 1, IsMasterPool: false, ChildPoolIds: []uint64{}}}
 		out = append(out, Aspect{Name: "gauge", Items: blk(6, ms("rewards.gauge", m))})
 	}
+	// admin: governance-style requests that COLLIDE with existing records (name / denom / short name / pair / extended
+	// pair / whitelisting / lookup uniqueness guards) must be rejected the same way, and the requests that are legal must
+	// get the same new ids afterwards
+	assets := a.AssetKeeper.GetAssets(ctx)
+	if len(assets) >= 3 {
+		first, last := assets[0], assets[len(assets)-1]
+		adm := []Step{
+			cfgStepT("admin.asset.dupname", "cfg.asset", assettypes.Asset{Name: first.Name, Denom: "ibc/dupname", Decimals: sdk.NewInt(1000000), IsOnChain: true}),
+			cfgStepT("admin.asset.dupname", "cfg.asset", assettypes.Asset{Name: last.Name, Denom: "udupnameb", Decimals: sdk.NewInt(1000000), IsOnChain: true}),
+			cfgStepT("admin.asset.dupdenom", "cfg.asset", assettypes.Asset{Name: "DUPDENOM", Denom: first.Denom, Decimals: sdk.NewInt(1000000), IsOnChain: true}),
+			cfgStepT("admin.asset.rename", "cfg.asset.update", assettypes.Asset{Id: last.Id, Name: first.Name, Denom: last.Denom, Decimals: last.Decimals}),
+			cfgStepT("admin.app.dup", "cfg.app", assettypes.AppData{Name: "harbor", ShortName: "hbrx", MinGovDeposit: sdk.NewInt(0)}),
+			cfgStepT("admin.app.dup", "cfg.app", assettypes.AppData{Name: "omega", ShortName: "hbr", MinGovDeposit: sdk.NewInt(0)}),
+			cfgStepT("admin.pair.dup", "cfg.pair", assettypes.Pair{AssetIn: A2, AssetOut: A3}),
+			cfgStepT("admin.extpair.dup", "cfg.extpair", bindings.MsgAddExtendedPairsVault{AppID: AppHarbor, PairID: 1, StabilityFee: d("0.01"), ClosingFee: d("0"),
+				LiquidationPenalty: d("0.12"), DrawDownFee: d("0.01"), IsVaultActive: true, DebtCeiling: sdk.NewInt(1000000000000), DebtFloor: sdk.NewInt(1000000),
+				MinCr: d("1.5"), PairName: "CMDX-B", AssetOutOraclePrice: true, AssetOutPrice: 1000000, MinUsdValueLeft: 1000000}),
+			cfgStepT("admin.locker.dup", "cfg.locker.whitelist", lockertypes.MsgAddWhiteListedAssetRequest{From: U("u6").String(), AppId: AppHarbor, AssetId: A3}),
+			cfgStepT("admin.collector.dup", "cfg.collector", bindings.MsgSetCollectorLookupTable{AppID: AppHarbor, CollectorAssetID: A3, SecondaryAssetID: AHARBOR,
+				SurplusThreshold: sdk.NewInt(1), DebtThreshold: sdk.NewInt(0), LockerSavingRate: d("0.1"), LotSize: sdk.NewInt(1), BidFactor: d("0.01"), DebtLotSize: sdk.NewInt(1)}),
+			cfgStepT("admin.lendrates.dup", "cfg.lend.rates", lendtypes.AssetRatesParams{AssetID: A1, UOptimal: d("0.75"), Base: d("0.002"), Slope1: d("0.07"), Slope2: d("1.25"),
+				StableBase: d("0.0"), StableSlope1: d("0.0"), StableSlope2: d("0.0"), Ltv: d("0.7"), LiquidationThreshold: d("0.75"), LiquidationPenalty: d("0.05"),
+				LiquidationBonus: d("0.05"), ReserveFactor: d("0.2"), CAssetID: CA1}),
+			// legal requests afterwards: the ids they get depend on what was (wrongly) accepted before
+			cfgStepT("admin.asset.new", "cfg.asset", assettypes.Asset{Name: "FRESH", Denom: "ufresh", Decimals: sdk.NewInt(1000000), IsOnChain: true}),
+			cfgStepT("admin.pair.new", "cfg.pair", assettypes.Pair{AssetIn: A4, AssetOut: A1}),
+			cfgStepT("admin.app.new", "cfg.app", assettypes.AppData{Name: "omega", ShortName: "omg", MinGovDeposit: sdk.NewInt(0)}),
+		}
+		out = append(out, Aspect{Name: "admin", Items: blk(6, adm...)})
+	}
 	return out
+}
+
+func cfgStepT(tag, kind string, obj interface{}) Step {
+	s := cfgStep(kind, obj)
+	s.Tag = tag
+	return s
 }
